@@ -852,15 +852,16 @@ func cmdMutate(seed uint64, n int) {
 
 // ------------------------------------------------------------------ golden wire format
 
-// cmdGolden serializes, for every message type, three fixed messages built by
+// cmdGolden serializes, for every message type, four fixed messages built by
 // reflection over the struct (all fields set; trailing omitempty fields empty;
-// first omitempty field nil and the following ones set) and deserializes the
+// first omitempty field nil and the following ones set; all fields set with
+// dicts nested in dicts and lists) and deserializes the
 // result.  Dicts hold one key, so the bytes are deterministic.  The output on
 // the reference tree is committed as corpus/C14/golden.txt; the check compares.
 func cmdGolden() {
 	id := 0
 	for _, t := range msgTypes {
-		for variant := 0; variant < 3; variant++ {
+		for variant := 0; variant < 4; variant++ {
 			m := wamp.NewMessage(t)
 			if m == nil {
 				fmt.Fprintf(out, "S %d - - | M NewMessage(%d)=nil | D - | V -\n", id, int(t))
@@ -893,9 +894,18 @@ func cmdGolden() {
 				case wamp.MessageType:
 					f.SetInt(48)
 				case wamp.Dict:
-					f.Set(reflect.ValueOf(wamp.Dict{fmt.Sprintf("k%d", i): int64(i)}))
+					if variant == 3 {
+						// dicts nested in dicts and lists (one key each: deterministic bytes)
+						f.Set(reflect.ValueOf(wamp.Dict{fmt.Sprintf("k%d", i): map[string]any{"n": []any{"x", map[string]any{"d": true}}}}))
+					} else {
+						f.Set(reflect.ValueOf(wamp.Dict{fmt.Sprintf("k%d", i): int64(i)}))
+					}
 				case wamp.List:
-					f.Set(reflect.ValueOf(wamp.List{int64(i), "x"}))
+					if variant == 3 {
+						f.Set(reflect.ValueOf(wamp.List{map[string]any{"m": map[string]any{"z": nil}}, "x"}))
+					} else {
+						f.Set(reflect.ValueOf(wamp.List{int64(i), "x"}))
+					}
 				}
 			}
 			ms := msgStr(m)
@@ -934,6 +944,39 @@ func cmdDeser() {
 	}
 }
 
+// harnessExt is a type of the harness only (it never occurs in a generated
+// payload): registering an extension for it must not change how ordinary
+// messages are encoded or decoded.
+type harnessExt []byte
+
+// exerciseStateAPIs leaves the package-level serializer state as an
+// application may legitimately leave it: every exported function of
+// transport/serialize that changes that state is used, in the documented
+// order (InitMsgpackHandle, then MsgpackRegisterExtension; deregistration;
+// again).  JSON and CBOR have no such API (their handles are set up once, in
+// init()).  A panic here is reported like any other.
+func exerciseStateAPIs() {
+	defer func() {
+		if r := recover(); r != nil {
+			fmt.Fprintf(out, "Z 0 msgpack - | M state-api | D panic %s | V -\n", oneLine(fmt.Sprint(r)))
+		}
+	}()
+	enc := func(v reflect.Value) ([]byte, error) { return v.Bytes(), nil }
+	dec := func(v reflect.Value, bs []byte) error { v.Elem().SetBytes(append([]byte{}, bs...)); return nil }
+	rt := reflect.TypeFor[harnessExt]()
+	serialize.InitMsgpackHandle()
+	_ = serialize.MsgpackRegisterExtension(rt, 42, enc, dec)
+	// use the extension once
+	mp := sers["msgpack"]
+	if b, err := mp.SerializeDataItem([]any{harnessExt{1, 2, 3}}); err == nil {
+		var v any
+		_ = mp.DeserializeDataItem(b, &v)
+	}
+	_ = serialize.MsgpackRegisterExtension(rt, 42, nil, nil) // deregister
+	serialize.InitMsgpackHandle()                            // and start over, as the doc comment prescribes
+	_ = serialize.MsgpackRegisterExtension(rt, 42, enc, dec)
+}
+
 func main() {
 	if len(os.Args) < 2 {
 		fmt.Fprintln(os.Stderr, "usage: c14drive gen|values|table|mutate|deser|probe [-seed S] [-n N]")
@@ -943,7 +986,16 @@ func main() {
 	fs := flag.NewFlagSet(cmd, flag.ExitOnError)
 	seed := fs.Uint64("seed", 1, "VERIF_SEED")
 	n := fs.Int("n", 100, "number of cases")
+	state := fs.String("state", "fresh", "serializer state: fresh (as after package init) | reinit (after the public re-initialisation / extension-registration APIs have been used)")
 	_ = fs.Parse(os.Args[2:])
+	switch *state {
+	case "fresh":
+	case "reinit":
+		exerciseStateAPIs()
+	default:
+		fmt.Fprintln(os.Stderr, "unknown -state "+*state)
+		os.Exit(2)
+	}
 	defer out.Flush()
 	switch cmd {
 	case "gen":
